@@ -378,7 +378,39 @@ static void sender_child(const void *job, size_t n) {
 	res_finish();
 }
 static size_t sender_gen(long idx, uint8_t *payload, char *human, size_t hn) { payload[0] = (uint8_t) idx; snprintf(human, hn, "occupancy reports sharing a packet with messages from deeper nodes"); return 1; }
-void c02_register(void) { harness_register("c02.sender", sender_child); harness_register("c02.addr", addr_child); harness_register("c02.long", long_child); harness_register("c02.fault", fault_child); harness_register("c02.chunk", chunk_child); harness_register("c02.loop", loop_child); }
+/* c02.loopcap: the round trip at the packet-capacity boundary.  Every announced capacity 60..255 (real MSG_PKT_CAPACITY through the
+ * normal dispatcher), three messages batched without a flush whose sizes add up to capacity-2 .. capacity+2, one flush, the bytes
+ * fed back: the receiver delivers exactly the three submitted messages, in order (a sender that fills a packet one byte too far
+ * produces, at capacity 255, a packet its own receiver cannot take). */
+static void loopcap_child(const void *job, size_t n) {
+	vs_dev_t devs[VS_MAXDEV]; int nd; size_t pl; const uint8_t *p = job_parse(job, n, devs, &nd, &pl);
+	int cap0 = p[0], ncap = p[1];
+	hx_child_begin(NULL, 0, 0, NULL, 0, 1000000ull * 1000000ull);
+	if (hx_start_debug(0)) res_infra("start failed");
+	hx_quiesce();
+	long cases = 0; static const uint8_t IF0[4] = {0, 0, 0, 0};
+	for (int cap = cap0; cap < cap0 + ncap && cap <= 255 && !res_nviol(); cap++) for (int delta = -2; delta <= 2; delta++) {
+		bidib_set_lowlevel_debug_mode(false); { uint8_t c = (uint8_t) cap; hx_feed_msg(IF0, 0, MSG_PKT_CAPACITY, &c, 1); hx_quiesce(); } bidib_set_lowlevel_debug_mode(true);
+		int total = cap + delta, s1 = total / 3, s2 = total / 3, s3 = total - s1 - s2; int sz[3] = {s1, s2, s3}; if (s3 > 128 || s1 < 6) continue;
+		vs_sleep_us(2500000); bidib_flush(); size_t off = env_out_len();
+		uint8_t sent[3][140]; int sl[3];
+		for (int k = 0; k < 3; k++) { uint8_t stack[4] = {0, 0, 0, 0}; uint8_t data[130]; int dl = sz[k] - 4; for (int i = 0; i < dl; i++) data[i] = (uint8_t) (0x30 + (i + k) % 40);
+			bidib_buffer_message_with_data(stack, MSG_SYS_CLOCK, (uint8_t) dl, data, 0); sl[k] = rc_build_msg(sent[k], IF0, 0, MSG_SYS_CLOCK, data, dl); }
+		bidib_flush();
+		size_t len = env_out_len() - off; const uint8_t *w = env_out() + off;
+		env_push_quiet(w, len); vs_point(); hx_quiesce();
+		char what[120]; snprintf(what, sizeof what, "capacity %d, three messages of %d+%d+%d = %d bytes batched", cap, s1, s2, s3, total);
+		for (int k = 0; k < 3; k++) { uint8_t *got = bidib_read_message();
+			if (!got || got[0] + 1 != sl[k] || got[0] != sent[k][0] || memcmp(got + 3, sent[k] + 3, (size_t) sl[k] - 3)) { res_violation("loopback-differs: the receiver does not decode what the library's own sender emitted", "%s: message %d delivered=%s", what, k + 1, got ? hx_hex(got, got[0] + 1 > 24 ? 24 : (size_t) got[0] + 1) : "(nothing)"); free(got); break; }
+			free(got); }
+		uint8_t *extra; while ((extra = bidib_read_message())) free(extra);
+		cases++;
+	}
+	res_printf("O %x %x\nC loopback_cases %ld\n", cap0, ncap, cases);
+	res_finish();
+}
+static size_t loopcap_gen(long idx, uint8_t *payload, char *human, size_t hn) { payload[0] = (uint8_t) (60 + idx * 14); payload[1] = 14; snprintf(human, hn, "round trip at the capacity boundary, capacities %ld..%ld", 60 + idx * 14, 60 + idx * 14 + 13); return 2; }
+void c02_register(void) { harness_register("c02.loopcap", loopcap_child); harness_register("c02.sender", sender_child); harness_register("c02.addr", addr_child); harness_register("c02.long", long_child); harness_register("c02.fault", fault_child); harness_register("c02.chunk", chunk_child); harness_register("c02.loop", loop_child); }
 int c02_run(const char *tier) {
 	g_thorough = !strcmp(tier, "thorough");
 	long execs = 0, states = 0; int exhaustive = 1;
@@ -399,6 +431,8 @@ int c02_run(const char *tier) {
 	ex_map(&lg); execs += lg.done; states += lg.distinct_outcomes; if (!lg.exhaustive) exhaustive = 0;
 	ex_spec_t ad = { .harness = "c02.addr", .ncases = 7, .gen = addr_gen, .label = "c02.addr" };
 	ex_map(&ad); execs += ad.done; states += ad.distinct_outcomes; if (!ad.exhaustive) exhaustive = 0;
+	ex_spec_t lc = { .harness = "c02.loopcap", .ncases = 14, .gen = loopcap_gen, .label = "c02.loopcap" };
+	ex_map(&lc); execs += lc.done; if (!lc.exhaustive) exhaustive = 0;
 	ex_spec_t sd = { .harness = "c02.sender", .ncases = 1, .gen = sender_gen, .label = "c02.sender" };
 	ex_map(&sd); execs += sd.done; if (!sd.exhaustive) exhaustive = 0;
 	rep_note("c02.addr: %ld multi-message packets (7 address shapes per position, 2 and 3 messages): the acknowledgement of the last message goes to the address it carries", rep_get("addr_cases"));
